@@ -59,6 +59,8 @@ def prove(ctx, mod):
     ok, log = C.coq_make([deps_target], timeout=getattr(mod, 'PROVE_TIMEOUT', 1500))
     res['make_s'] = round(time.time() - t0, 1)
     if not ok:
+        # keep the models evaluable: build whatever does not depend on the failing file
+        C.coq_make_keep_going([deps_target], timeout=getattr(mod, 'PROVE_TIMEOUT', 1500))
         # which file / theorem failed?
         m = re.search(r'File "([^"]+)", line (\d+)', log)
         where = None
